@@ -33,7 +33,7 @@ class C18(core.Prop):
         'TddaVerif.Props.C18.incr_nonincreasing',
         'TddaVerif.Props.C18.incr_fields_exact',
     ]
-    quick_n = 400
+    quick_n = 1200
     thorough_n = 20000
     rule = ('cases: (a) direct calls of rex_coverage / rex_(full_)incremental_coverage with 1..6 overlapping '
             'patterns from a pool (some unterminated, some duplicated) on 0..10 distinct strings with freqs 1..4; '
@@ -69,10 +69,13 @@ class C18(core.Prop):
             freqs = [rng.choice([1, 1, 1, 2, 3, 4]) for _ in strings]
             return {'kind': 'direct', 'pats': pats, 'strings': strings, 'freqs': freqs}
         ex = gens.example_list(rng, 12)
+        if rng.random() < 0.2:
+            # examples that are nothing but white space, empty strings, nulls (what the cleaning options are about)
+            ex = list(ex) + [rng.choice(['   ', '\t', ' ', '  ', ' \t ', '', None]) for _ in range(rng.randint(1, 3))]
         opts = {}
         if rng.random() < 0.3:
             opts['strip'] = True
-        if rng.random() < 0.3:
+        if rng.random() < (0.6 if opts.get('strip') else 0.2):
             opts['remove_empties'] = True
         if rng.random() < 0.3:
             opts['tag'] = True
